@@ -173,8 +173,11 @@ func RunPckExtCase(cs map[string]any, id int, seed int64) Result {
 					if idx := tcbIndex(k); idx <= 17 && id%3 == 0 {
 						// an element *below* the missing one's OID (one or two more arcs) with a fitting value is not that element
 						deeper := append(gen.TcbCompOID(idx), []int{0, 1, 7}[rng.Intn(3)])
-						if rng.Intn(2) == 0 {
+						switch rng.Intn(3) {
+						case 0:
 							deeper = append(deeper, 1)
+						case 1: // or a cousin: the same last arc under another branch of the SGX extension (...1.13.1.<x>.<n>, x # 2)
+							deeper = append(append([]int{}, gen.OidSgx...), []int{1, 3, 7, 22}[rng.Intn(4)], idx)
 						}
 						e = gen.ElemInt(deeper, int64(rng.Intn(200)))
 					}
